@@ -146,9 +146,9 @@ def run_op(ns, world, knobs, op, fault=None, record_steps=False, real_kill=False
     sim = fs.Sim(world, fault=fault, bufsize=knobs.get("bufsize", 8192), record_steps=record_steps, real_kill=real_kill)
     fn = make_callable(ns, world, knobs, op)
     style = knobs.get("path_style")
-    outcome = fs.run_process(ns, sim, fn, cwd=world.root if style == "relative" or op["op"] == "gen" else None,
-                             home=world.root if style == "tilde" else None,
-                             extra_path=world.root if op["op"] == "gen" else None)
+    outcome = fs.run_process(ns, sim, fn, cwd=world.root if style == "relative" or op["op"] == "gen" or op.get("cwd_world") else None,
+                             home=world.root if style == "tilde" or op.get("home_world") else None,
+                             extra_path=world.root if op["op"] == "gen" or op.get("path_world") else None)
     ret = outcome.pop("ret")
     report = None
     if op["op"] == "sync" and hasattr(ret, "items"):
@@ -235,6 +235,17 @@ def pre_state(kind, name, data, truth):
         if b is not None and not (type(a) is type(b) and a == b):
             return "stale"
     return "agree"
+
+
+def enclosing_state(kind, name, data):
+    """For a method target: does the file define the enclosing class?  (present | absent | n/a)"""
+    if kind != "function" or "." not in name:
+        return None
+    tree = _tree(data)
+    if tree is None:
+        return "absent"
+    res = resolver.resolve(tree, name.split(".")[:-1])
+    return "present" if res is not None and isinstance(res["node"], ast.ClassDef) else "absent"
 
 
 def write_path(pre):
@@ -344,7 +355,8 @@ def oracles_sync(op, S0, S1, out, hist, stats):
             kn = [(k, n) for k, n, ff in iter_targets(op) if ff == f]
             k0, n0 = kn[0] if kn else (op["truth"], "")
             v.append(viol("C10", "R3-not-idempotent", op, "second identical sync changed %s (%d -> %d bytes)" % (f, len(S0.get(f) or b""), len(S1.get(f) or b"")),
-                          target_kind=target_kind(k0, n0), pre_state=pres.get((k0, f)), grew=len(S1.get(f) or b"") > len(S0.get(f) or b"")))
+                          target_kind=target_kind(k0, n0), pre_state=pres.get((k0, f)), grew=len(S1.get(f) or b"") > len(S0.get(f) or b""),
+                          enclosing=enclosing_state(k0, n0, S0.get(f))))
     # ---- C10 R4: within a run of syncs without edits (any mix of commands)
     #   R4a: if nothing at all changed since the previous execution of this same command, it must change nothing now;
     #   R4b: a file must not grow at three consecutive executions of the same command (a definition appended again on every run).
@@ -361,13 +373,14 @@ def oracles_sync(op, S0, S1, out, hist, stats):
                 kn = [(k, n) for k, n, ff in iter_targets(op) if ff == f]
                 k0, n0 = kn[0] if kn else (op["truth"], "")
                 v.append(viol("C10", "R4-no-convergence", op, "execution #%d of the same sync, with the project exactly as its previous execution left it, changed %s" % (q["n"], f),
-                              target_kind=target_kind(k0, n0), pre_state=pres.get((k0, f)), grew=len(S1.get(f) or b"") > len(S0.get(f) or b"")))
+                              target_kind=target_kind(k0, n0), pre_state=pres.get((k0, f)), grew=len(S1.get(f) or b"") > len(S0.get(f) or b""),
+                              enclosing=enclosing_state(k0, n0, S0.get(f))))
     for kind, name, f in iter_targets(op):
         sz = q["sizes"].setdefault(f, [])
         sz.append(len(S1.get(f) or b""))
         if len(sz) >= 4 and sz[-4] < sz[-3] < sz[-2] < sz[-1]:
             v.append(viol("C10", "R4-growth", op, "%s grew at three consecutive executions of the same sync without any edit in between (%s bytes)" % (f, sz[-4:]),
-                          target_kind=target_kind(kind, name), pre_state=pres.get((kind, f)), grew=True))
+                          target_kind=target_kind(kind, name), pre_state=pres.get((kind, f)), grew=True, enclosing=enclosing_state(kind, name, S0.get(f))))
     q["after"] = {f: sha(d) for f, d in S1.items()}
 
     # ---- C09 A1/A2 and C11 per target
@@ -831,6 +844,11 @@ def oracles_cli(op, S0, S1, out, stats):
         if S0 != S1:
             ch = sorted(f for f in set(S0) | set(S1) if S0.get(f) != S1.get(f))
             v.append(viol("C20", "O3-rejected-but-touched", op, "rejected invocation (%s) changed the filesystem: %s" % (op.get("why"), ch), **common))
+    elif exp == "untouched":
+        # however the invocation ends, it must not alter anything that exists
+        if S0 != S1:
+            ch = sorted(f for f in set(S0) | set(S1) if S0.get(f) != S1.get(f))
+            v.append(viol("C20", "O3-rejected-but-touched", op, "invocation (%s) that must not touch existing files changed: %s" % (op.get("why"), ch), **common))
     elif exp == "either":
         # the documented rules neither require nor forbid this combination: a usage error that leaves the
         # tree untouched is fine, carrying it out is fine, an internal error is not
